@@ -363,7 +363,7 @@ class Run:
 
 
 LIMITS = {'quick': (150_000, 400_000), 'thorough': (1_500_000, 3_000_000)}
-TIME_LIMIT = {'quick': 2.0, 'thorough': 20.0}     # wall-clock net for sympy-heavy calls (lines do not see them)
+TIME_LIMIT = {'quick': 4.0, 'thorough': 20.0}     # wall-clock net for sympy-heavy calls (lines do not see them)
 
 
 def compute_expected(trace, oracle, tier=None):
